@@ -1,10 +1,10 @@
 #!/bin/sh
 # tools/keepseed3.sh <group> <k> [extra checks...]: round-3 seeds (file-group based); property read from the agent's meta
 g="$1"; k="$2"; shift 2
-prop=$(python3 -c "import json;print(json.load(open('/tmp/seed3-$g/out/meta$k.json'))['property'].split()[0].strip(',;'))")
-mkdir -p /tmp/seed3-$g-$k-$prop; rm -rf /tmp/seed3-$g-$k-$prop/out; mkdir -p /tmp/seed3-$g-$k-$prop/out
-cp /tmp/seed3-$g/out/mutant$k.diff /tmp/seed3-$g-$k-$prop/out/mutant$k.diff
-cp /tmp/seed3-$g/out/demo$k.py /tmp/seed3-$g-$k-$prop/out/demo$k.py
-cp /tmp/seed3-$g/out/meta$k.json /tmp/seed3-$g-$k-$prop/out/meta$k.json
-SEED_SRC_PREFIX=/tmp/seed3-$g-$k- SEED_DST_NAME=$prop-r3$g-$k /verif/tools/keepseed.sh $prop $k $prop "$@"
-rm -rf /tmp/seed3-$g-$k-$prop
+prop=$(python3 -c "import json;print(json.load(open('/tmp/${SEED_ROUND:-seed3}-$g/out/meta$k.json'))['property'].split()[0].strip(',;'))")
+mkdir -p /tmp/${SEED_ROUND:-seed3}-$g-$k-$prop; rm -rf /tmp/${SEED_ROUND:-seed3}-$g-$k-$prop/out; mkdir -p /tmp/${SEED_ROUND:-seed3}-$g-$k-$prop/out
+cp /tmp/${SEED_ROUND:-seed3}-$g/out/mutant$k.diff /tmp/${SEED_ROUND:-seed3}-$g-$k-$prop/out/mutant$k.diff
+cp /tmp/${SEED_ROUND:-seed3}-$g/out/demo$k.py /tmp/${SEED_ROUND:-seed3}-$g-$k-$prop/out/demo$k.py
+cp /tmp/${SEED_ROUND:-seed3}-$g/out/meta$k.json /tmp/${SEED_ROUND:-seed3}-$g-$k-$prop/out/meta$k.json
+SEED_SRC_PREFIX=/tmp/${SEED_ROUND:-seed3}-$g-$k- SEED_DST_NAME=$prop-${SEED_TAG:-r3}$g-$k /verif/tools/keepseed.sh $prop $k $prop "$@"
+rm -rf /tmp/${SEED_ROUND:-seed3}-$g-$k-$prop
